@@ -453,3 +453,28 @@ def demo : St := ⟨.gfa1, [⟨.S, ["A", "ACGT"], false⟩, ⟨.S, ["B", "GTAA"]
   some [⟨.S, ["X", "CC"], false⟩, ⟨.S, ["Y", "CG"], false⟩, ⟨.L, ["X", "+", "Y", "+", "1M"], false⟩, ⟨.S, ["A_B", "ACGTAA", "LN:i:6"], false⟩]
 
 end Gfa.C14Frame
+
+namespace Gfa.C14Frame
+open G C09 C02 C03 C05
+
+/-- **frame of a removal, every record type**: a real line that is not a (transitive) dependant of the lines asked for
+    is still there - with the same text unless it is a set, which loses exactly the mentions of removed lines -/
+theorem rmIdx_frame (st : St) (seed : List Nat) (j : Nat) (q : Rec) (hq : st.lines[j]? = some q)
+    (hnd : ¬ Dep st seed j) (hv : q.virt = false) :
+    dropItems ((cascade st seed).filterMap (fun j => (st.lines[j]?).bind Rec.name)) q ∈ (rmIdx st seed).lines ∧
+    (q.rt ≠ .U → q ∈ (rmIdx st seed).lines) := by
+  have hj : j ∉ cascade st seed := fun hc => hnd (cascade_sound st seed j hc)
+  refine ⟨?_, fun hu => rmIdx_keeps st seed j q hq hj hv hu⟩
+  have hlt : j < st.lines.length := by
+    rcases Nat.lt_or_ge j st.lines.length with h | h
+    · exact h
+    · rw [List.getElem?_eq_none h] at hq; cases hq
+  have h1 := (rmCore_lines st seed _).mpr ⟨q, j, hlt, hq, hj, rfl⟩
+  obtain ⟨i, hi, hqi⟩ := List.getElem_of_mem h1
+  refine (rm_lines st seed _).mpr ⟨_, i, by rw [List.getElem?_eq_getElem hi, hqi], ?_⟩
+  unfold resetPlaceholder
+  have : (dropItems ((cascade st seed).filterMap (fun j => (st.lines[j]?).bind Rec.name)) q).virt = false := by
+    unfold dropItems; split <;> exact hv
+  simp [this]
+
+end Gfa.C14Frame
